@@ -92,7 +92,14 @@ def count_transitions(it):
 
 def check_counter_and_budget(ck):
     cb = empty_callback()
-    for aname, (algo, env, mkpol) in setups(ck.thorough).items():
+    from props.C11 import harness_env_policy
+    allsets = dict(setups(ck.thorough))
+    # off-policy learners with more than one step (and environment) per iteration: the per-iteration budget is num_envs * num_steps, not num_envs
+    envq, mkq = harness_env_policy("DQN")
+    envs_, mks = harness_env_policy("SAC")
+    allsets["DQN(E=2,S=2)"] = (DQN(buffer_size=8, learning_starts=1, num_envs=2, num_steps=2, batch_size=2, target_update_interval=3), envq, mkq)
+    allsets["SAC(S=3)"] = (SAC(buffer_size=4, learning_starts=1, num_envs=1, num_steps=3, batch_size=2, q_width_size=2, q_depth=1), envs_, mks)
+    for aname, (algo, env, mkpol) in allsets.items():
         pol = mkpol()
         tr, it, S, out = iteration_trace(aname, algo, env, pol, cb)
         ck.encoded(tr)
